@@ -14,7 +14,7 @@
    every iteration order of the Go map; these theorems quantify over all strategies, parameters
    and node lists. *)
 From Verif Require Import Lib.Base Model.C07_Strategies Model.C07_Spec
-  Proofs.C07 Proofs.C07_Acc Proofs.C07_Timed Proofs.C07_Outcomes Proofs.C07_Majority Check.C07.
+  Proofs.C07 Proofs.C07_Acc Proofs.C07_Timed Proofs.C07_Outcomes Proofs.C07_Majority Proofs.C07_Check Check.C07.
 From Coq Require Import Permutation QArith.
 Open Scope N_scope.
 
@@ -381,3 +381,32 @@ Example C07_timed_example :
   /\ outcomes ContribBest pr [mk_prov 0 100 false (BRespond v1); mk_prov 1 1100 false (BRespond v2)] = [(RVal 0, 1000)]
   /\ outcomes ContribFirst pr [mk_prov 0 100 false (BRespond v1); mk_prov 1 900 false (BRespond v2)] = [(RVal 0, 100)].
 Proof. vm_compute. auto. Qed.
+
+(* best, latest and block-root majority: an acceptable answer given before the soft timeout
+   (half the timeout) ends the wait at the soft timeout at the latest *)
+Theorem C07_soft_timeout_ends_wait :
+  forall st pr ps r t,
+    (template_of st = TBest \/ template_of st = TMajRoot) -> In (r, t) (outcomes st pr ps) ->
+    forall p1 v1, In p1 ps -> gives_ok st pr p1 v1 -> pv_time p1 < p_timeout pr / 2 ->
+    t <= p_timeout pr / 2.
+Proof. exact outcomes_soft_rule. Qed.
+Print Assumptions C07_soft_timeout_ends_wait.
+
+(* =========================================================================================== *)
+(* F. The property predicate of the check holds of the model, for all inputs.
+
+   [P_b c] (Check/C07.v) is the property evaluated on the OBSERVED output of the implementation,
+   without consulting the model: returned in time; every node asked once; best: an acceptable
+   answer given by the return that no acceptable answer given before the return outscores, the
+   soft-timeout rule, an error only if nothing acceptable came before the hard timeout; majority:
+   at least one and at least the threshold of votes, no value with more votes, ties by head slot,
+   an error only if no value reached the threshold in time; first: an answer given at the instant
+   of return with none earlier, an error only if none came in time.
+   [agree c]: the observed (result, instant) is one of the model's outcomes, every node was called
+   once (and the printed case is well formed).  Hence for EVERY strategy, parameters and node
+   behaviours: whatever the model can do satisfies the property predicate; the predicate can only
+   fail on the implementation where the implementation leaves the model. *)
+Theorem C07_model_satisfies_property_predicate :
+  forall c : case, agree c = true -> P_b c = true.
+Proof. exact agree_implies_P_b. Qed.
+Print Assumptions C07_model_satisfies_property_predicate.
